@@ -416,6 +416,14 @@ def _fit_run(job, k, kind):
         fid = cur[cur.percent_expected_vote >= 100].geographic_unit_fips.iloc[0]
         pre.loc[pre.geographic_unit_fips == fid, ["baseline_turnout", "baseline_dem", "baseline_gop"]] = [1, 1, 0]
         cur.loc[cur.geographic_unit_fips == fid, ["results_turnout", "results_dem", "results_gop"]] = [1, 1, 0]
+    extra = {}
+    if job["seed"] % 2 == 1:
+        # fixed effects on the classification with two reporting units in a class of their own: the seeded calibration split
+        # can leave the class out of the training rows (an all-zero column in that design) - a failed solve of such a fit
+        # is retried like any other (seeded change C20_H)
+        rep_ids = cur[cur.percent_expected_vote >= 100].geographic_unit_fips.tolist()
+        pre.loc[pre.geographic_unit_fips.isin([rep_ids[1], rep_ids[-1]]), "county_classification"] = "exurb"
+        extra["fixed_effects"] = {"county_classification": ["all"]}
     _REC.reset(k, kind)
     c, res = synth.run_client(
         pre,
@@ -426,6 +434,7 @@ def _fit_run(job, k, kind):
         aggregates=["postal_code", "county_fips", "unit"],
         model_parameters={"lambda_": job["lam"]},
         features=tuple(job.get("features", ("x1",))),
+        **extra,
     )
     return res
 
